@@ -80,12 +80,48 @@ def target_dir(group):
     return os.path.join(WORK, key)
 
 
-def run_group(group, run_dir, log):
+def run_group(group, run_dir, log, chunk=80):
+    """Large groups are run as several cargo-kani invocations of at most `chunk`
+    harnesses (kani-driver buffers the output of all harnesses of an
+    invocation); the results are merged."""
+    import copy
+    if len(group.harnesses) <= chunk:
+        results, wall, text = _run_group_once(group, run_dir, log)
+        # kani-driver's CBMC output parser occasionally panics (seen with
+        # --verbosity 4: "assertion failed: input.len() == 2"), which loses the
+        # results of the whole invocation. That is an infrastructure failure,
+        # not a verdict: the harnesses without a result are run once more.
+        lost = [h for h in group.harnesses if results.get(h, {}).get("status") == "error"
+                and ("no JSON export" in results[h].get("reason", "") or "missing from Kani" in results[h].get("reason", ""))]
+        if lost and "panicked at kani-driver" in text:
+            log("  group %s: kani-driver crashed, re-running %d harnesses without a result" % (group.name, len(lost)))
+            g = copy.copy(group)
+            g.harnesses = lost
+            g.part = 99
+            r, w, t = _run_group_once(g, run_dir, log)
+            results.update(r)
+            wall += w
+            text += t
+        return results, wall, text
+    results, wall, text = {}, 0.0, ""
+    for i in range(0, len(group.harnesses), chunk):
+        g = copy.copy(group)
+        g.harnesses = group.harnesses[i:i + chunk]
+        g.part = i // chunk
+        r, w, t = run_group(g, run_dir, log, chunk)
+        results.update(r)
+        wall += w
+        text += t
+    return results, wall, text
+
+
+def _run_group_once(group, run_dir, log):
     """Returns dict harness -> result dict. Never raises on verification
     outcomes; infrastructure problems are reported as status 'error'."""
     os.makedirs(run_dir, exist_ok=True)
-    out_json = os.path.join(run_dir, group.name + ".json")
-    out_log = os.path.join(run_dir, group.name + ".log")
+    part = ("_p%d" % group.part) if getattr(group, "part", None) is not None else ""
+    out_json = os.path.join(run_dir, group.name + part + ".json")
+    out_log = os.path.join(run_dir, group.name + part + ".log")
     if os.path.exists(out_json):
         os.remove(out_json)
     cmd = ["cargo", "kani", "--target-dir", target_dir(group),
